@@ -1334,6 +1334,11 @@ func c13gen(c *h.Ctx, yield func(*h.Case)) {
 		r.Read(other)
 		nilid := strings.Repeat("00", 16)
 		hs, ho := hex.EncodeToString(sid), hex.EncodeToString(other)
+		// ids that differ in the version nibble / the variant bits only are different ids
+		s3, s4 := append([]byte{}, sid...), append([]byte{}, sid...)
+		s3[6] ^= 0x10 << uint(r.Intn(4))
+		s4[8] ^= 0x40 << uint(r.Intn(2))
+		ops = append(ops, "c13 ideq "+hex.EncodeToString(sid)+" "+hex.EncodeToString(s3), "c13 ideq "+hex.EncodeToString(s4)+" "+hex.EncodeToString(sid))
 		ops = append(ops, "c13 ideq "+hs+" "+hs, "c13 ideq "+hs+" "+ho, "c13 ideq "+hs+" "+hex.EncodeToString(s2), "c13 ideq "+nilid+" "+nilid,
 			"c13 ideq "+nilid+" "+hs, "c13 ideq "+hs+" "+nilid)
 		class := "full-peersets"
